@@ -57,7 +57,7 @@ CHECKS: dict[str, dict] = {
         text="For every stream up to 3 packets (+ partial trailing frame), every byte offset of the peer's close, every chunking and every history of recv_packet / iter_received_packets calls with timeouts in {None, >0, 0}: each complete packet exactly once in order, end-of-stream only after all of them, never a partial frame, and end-of-stream is sticky without blocking.",
     ),
     "C11": dict(
-        cat="exploration", ref="DESIGN.md §3 C11, §2 E3", engine="E1 world + E3 vblock (+E2 for the async iterator)",
+        cat="exploration", ref="DESIGN.md §3 C11, §2 E3", engine="E1 world + E3 vblock (+E2 for the async iterator, E4 vthreads for lock contention, E7 tlsrig for the real TLS transport)",
         technique="complete enumeration of arrival schedules (cuts x delay tuples) x timeouts x retry intervals on a virtual clock, spurious readiness as bounded deviations; oracle = exact virtual elapsed time against the reference 'return at A iff A < T else TimeoutError at T'",
         text="For every enumerated arrival schedule the blocking call returns the packet at the instant its last byte arrived iff that is before the deadline, else raises TimeoutError exactly T after it started (never earlier, never later), T=0 never waits, iterators share one budget across packets. Ties with the deadline are excluded and counted. One known finding (TLS-like short reads with T=0) is keyed separately.",
     ),
@@ -67,8 +67,8 @@ CHECKS: dict[str, dict] = {
         text="Every serializer importable here (plus pickle with a restricted unpickler): packets round-trip through one datagram; for all datagram sequences up to the bound each datagram yields exactly one result that depends on that datagram alone; k sends produce exactly k datagrams equal to make_datagram(p); nothing is carried over between receives, on blocking and asynchronous endpoints and UDP clients.",
     ),
     "C12": dict(
-        cat="exploration", ref="DESIGN.md §3 C12", engine="E2 vloop + mc/envsched.py + BFS over the real FairLock",
-        technique="stateless schedule enumeration of N concurrent senders on the real asyncio client over a tiny fake pipe (peer drain steps placed at loop-iteration boundaries, deviation-bounded) plus explicit-state BFS to a fixpoint over the real FairLock",
+        cat="exploration", ref="DESIGN.md §3 C12", engine="E2 vloop + mc/envsched.py + BFS over the real FairLock + E4 vthreads (props/c12_threads.py)",
+        technique="stateless schedule enumeration of N concurrent senders on the real asyncio client over a tiny fake pipe (peer drain steps placed at loop-iteration boundaries, deviation-bounded) plus explicit-state BFS to a fixpoint over the real FairLock, plus preemption-bounded scheduling of two real threads on the blocking TCP/UDP clients (baton scheduler, partial writes)",
         text="Every explored interleaving of 2-3 concurrent send_packet calls (three chunks per packet, transport suspending at arbitrary points) leaves a wire that parses into exactly the multiset of sent packets, each contiguous, per-sender order kept, every call succeeding; on the raw endpoint the loser gets BusyResourceError and the wire stays intact; every reachable FairLock state satisfies mutual exclusion, FIFO hand-off and no lost wake-up.",
     ),
     "C14": dict(
